@@ -98,7 +98,9 @@ impl Group {
                 rrsig.signer_name().to_name::<Bytes>(),
                 Bytes::copy_from_slice(rrsig.signature().as_ref()),
             )
-            .expect("should not fail");
+            // With a compressed signer name the record data can be longer
+            // than 65535 octets once the name is uncompressed.
+            .map_err(|_| Error::FormError)?;
 
         let record: Record<Name<Bytes>, _> = Record::new(
             sig_record.owner().to_name::<Bytes>(),
@@ -163,7 +165,9 @@ impl Group {
                         rrsig.signer_name().to_name::<Bytes>(),
                         Bytes::copy_from_slice(rrsig.signature().as_ref()),
                     )
-                    .expect("should not fail");
+                    // Return failure if the uncompressed record data is
+                    // too long. Later new will report the error.
+                    .map_err(|_| ())?;
 
                 let record: Record<Name<Bytes>, _> = Record::new(
                     record.owner().to_name::<Bytes>(),
